@@ -606,6 +606,7 @@ type Path struct {
 	dead    bool
 	notes   []string
 	elemStores map[string][]Val // values stored into freshly allocated arrays (variadic argument lists)
+	private map[string]string // struct objects allocated by this activation that no other code can reach yet: term -> type key
 }
 
 type lockRef struct {
@@ -630,6 +631,10 @@ func (p *Path) clone(newID int) *Path {
 	q.cells = make(map[string]Val, len(p.cells))
 	for k, v := range p.cells {
 		q.cells[k] = v
+	}
+	q.private = make(map[string]string, len(p.private))
+	for k, v := range p.private {
+		q.private[k] = v
 	}
 	q.escaped = make(map[string]bool, len(p.escaped))
 	for k, v := range p.escaped {
